@@ -10,7 +10,7 @@ with open(os.path.join(VERIF, "lean", "obligations.json")) as f:
 
 NOTE = ("Trusted: Lean 4.33 kernel; axioms propext/Classical.choice/Quot.sound only; the hand-written Lean model and spec "
         "executor; the correspondence check (harness canonicalisation, compiled driver) and its boundedness (agreement is "
-        "established on the explored inputs only); CPython semantics; integer cost vectors; canonical driver for online schedules. "
+        "established on the explored inputs only); CPython semantics; integer cost vectors; the clients of DESIGN section 5 for online schedules (canonical, noisy, journalling, late-finalising, numpy arguments; other call orders only through C10 histories). "
         "Where a source-level tie is listed: the translator harness/py2lean.py (rules in its docstring; validated per run "
         "against the real functions by harness/genval.py) instead of the hand-written model of those functions.")
 
